@@ -22,6 +22,8 @@ import ScrutModel.Props.C09
 -- the integrated model (Lemmas/TestRunProps.lean) are stated in Props/C01, C05, C15, C20
 import ScrutModel.Lemmas.TestRun
 import ScrutModel.Lemmas.TestRunProps
+-- the single-script path without guards (keep_crlf, commands that leave the shell, skip decision)
+import ScrutModel.Lemmas.TestRunScript
 -- the integrated executable model of `scrut update --replace` (Model/UpdateRun.lean); tied to the binary by the harness (op `upddoc`);
 -- its theorems (Lemmas/UpdateRunProps, UpdateRunAlign, UpdateRunRejudge, UpdateRunReparse, UpdateRunWitness) are stated in Props/C10 and Props/C09
 import ScrutModel.Model.UpdateRun
